@@ -26,13 +26,13 @@ def _solve(f, x0, t0, times, method, rtol, atol, jac=None, max_step=np.inf):
     return s.y.T
 
 
-def reference(f, x0, t0, times, jac=None, stiff_ok=False, crosscheck=True, amplification=True):
+def reference(f, x0, t0, times, jac=None, stiff_ok=False, crosscheck=True, amplification=True, stiff_hint=False):
     """f(t, x) -> dx/dt.  `times` strictly increasing, all > t0.  Returns RefSolution (x has one row per requested time)."""
     x0 = np.asarray(x0, dtype=float)
     times = np.asarray(times, dtype=float)
     sc = 1.0 + float(np.max(np.abs(x0))) if x0.size else 1.0
     atol = 1e-13 * sc
-    x = _solve(f, x0, t0, times, "DOP853", 1e-12, atol)
+    x = None if stiff_hint else _solve(f, x0, t0, times, "DOP853", 1e-12, atol)
     if x is None:
         # stiff problem: fall back to Radau as the primary reference
         x = _solve(f, x0, t0, times, "Radau", 1e-11, atol, jac=jac)
